@@ -108,15 +108,16 @@ def finish(rep, explanation, rule_text, checker_cmd, seed=0, write=True):
             listed.append((v, known_keys[k]))
         else:
             new.append(v)
-    os.makedirs(VIOL_DIR, exist_ok=True)
+    viol_dir = VIOL_DIR if write else os.path.join(extract.CACHE, "scratch-violations")
+    os.makedirs(viol_dir, exist_ok=True)
     # remove stale replay files of this property
-    for f in os.listdir(VIOL_DIR):
+    for f in os.listdir(viol_dir):
         if f.startswith(rep.pid + "-"):
-            os.remove(os.path.join(VIOL_DIR, f))
+            os.remove(os.path.join(viol_dir, f))
     for v, f in listed:
         print("KNOWN-FINDING: property=%s %s [%s] %s" % (rep.pid, f.get("what", v["msg"]), v["rule"], v["key"]))
     for n, v in enumerate(new, 1):
-        path = os.path.join("evidence", "violations", "%s-%d.json" % (rep.pid, n))
+        path = os.path.join(os.path.relpath(viol_dir, VERIF), "%s-%d.json" % (rep.pid, n))
         with open(os.path.join(VERIF, path), "w") as fh:
             json.dump(dict(property=rep.pid, rule=v["rule"], key=v["key"], msg=v["msg"], where=v.get("where", ""),
                            detail={k: v[k] for k in v if k not in ("rule", "key", "msg", "where", "verdict", "nontrivial")}),
